@@ -11,7 +11,9 @@ use std::sync::{Mutex, OnceLock};
 use std::time::{Duration, Instant};
 
 pub const REAL_GIT: &str = "/usr/bin/git";
-pub const EPOCH0: u64 = 1_700_000_000;
+// after OLDEST_AI_BLAME_DATE (2025-07-04): commits dated before it are ignored by git-ai's
+// blame-based attribution recovery, which no real user history is subject to
+pub const EPOCH0: u64 = 1_770_000_000;
 
 pub fn git_ai_bin() -> PathBuf {
     std::env::var_os("GAIV_GIT_AI_BIN")
@@ -255,12 +257,12 @@ impl Sandbox {
         cmd.current_dir(cwd);
         cmd.args(args);
         if self.log_enabled {
-            self.log.push(format!(
+            eprintln!(
                 "[{}] {} {}",
                 cwd.strip_prefix(&self.root).unwrap_or(cwd).display(),
                 argv0.map(|s| s.to_string()).unwrap_or_else(|| program.display().to_string()),
                 args.iter().map(|a| format!("{:?}", a)).collect::<Vec<_>>().join(" ")
-            ));
+            );
         }
         run_with_timeout(cmd, stdin, self.step_timeout)
     }
